@@ -17,7 +17,9 @@ MODES = ["fn", "mod", "trait_self", "static_target"]
 def enumerate_states(tier):
     depths = range(1, 6) if tier == "thorough" else range(1, 4)
     states = []
-    for mode, asy, d, ar, lt in itertools.product(MODES, (False, True), depths, (0, 1, 2), (False, True, "ab", "gen", "prov", "val", "mki", "mut", "bys", "provrec")):
+    for mode, asy, d, ar, lt in itertools.product(MODES, (False, True), depths, (0, 1, 2), (False, True, "ab", "abw", "gen", "prov", "val", "mki", "mut", "bys", "provrec")):
+        if lt == "abw" and ar == 2 and tier != "thorough":
+            continue    # like "ab", the outlives relation written as a where clause
         if lt == "mut" and (ar == 2 and tier != "thorough"):
             continue    # a `&mut` parameter in every signature of the chain
         if lt == "bys" and (d != 1 or mode != "trait_self" or (ar == 2 and tier != "thorough")):
@@ -36,7 +38,7 @@ def enumerate_states(tier):
             continue    # a provided (default-bodied) method of an entraited trait
         if lt in ("ab", "gen", "prov") and ar == 2 and tier != "thorough":
             continue
-        states.append(dict(key="z_%s_%s_d%d_a%d%s" % (mode, "a" if asy else "s", d, ar, {False: "", True: "_lt", "ab": "_ltab", "gen": "_gen", "prov": "_prov", "val": "_val", "mki": "_mki", "mut": "_mut", "bys": "_bys", "provrec": "_provrec"}[lt]), mode=mode, asy=asy, depth=d, arity=ar, lt=lt))
+        states.append(dict(key="z_%s_%s_d%d_a%d%s" % (mode, "a" if asy else "s", d, ar, {False: "", True: "_lt", "ab": "_ltab", "gen": "_gen", "prov": "_prov", "val": "_val", "mki": "_mki", "mut": "_mut", "bys": "_bys", "provrec": "_provrec", "abw": "_ltabw"}[lt]), mode=mode, asy=asy, depth=d, arity=ar, lt=lt))
     return states, len(states), dict(depths=list(depths), arities=[0, 1, 2], modes=MODES)
 
 
@@ -55,6 +57,9 @@ def render(s):
         # two named lifetimes related by an outlives bound
         params, args, fwdl, asum, G = params + ", s: &'a str, t: &'b str", args + ', "xy", ""', fwdl + ["s", "t"], \
             asum + " + s.len() as u64 + t.len() as u64", "<'a, 'b: 'a>"
+    elif lt == "abw":
+        params, args, fwdl, asum, G = params + ", s: &'a str, t: &'b str", args + ', "xy", ""', fwdl + ["s", "t"], \
+            asum + " + s.len() as u64 + t.len() as u64", "<'a, 'b>"
     elif lt == "mut":
         params, args, fwdl, asum, G = params + ", m: &mut u64", args + ", &mut 2u64", fwdl + ["m"], asum + " + *m", ""
     elif lt == "gen":
@@ -127,6 +132,8 @@ def render(s):
         L.append("    impl DelegateL%d<Self> for App { type Target = X; }" % i)
         app = "::entrait::Impl::new(App)"
         direct = ("l1(&app%s)" % args) if d > 1 else ("X::l1(&app%s)" % args)
+    if lt == "abw":
+        L = [l.replace("-> u64 {", "-> u64 where 'b: 'a {", 1).replace("-> u64; }", "-> u64 where 'b: 'a; }") if (" fn l" in l or "fn l" in l) and "<'a, 'b>" in l else l for l in L]
     via = "L1::l1(&app%s)" % args
     if lt == "val":
         via = "L1::l1(::entrait::Impl::new(App)%s)" % args
@@ -146,7 +153,7 @@ def render(s):
 def model(s):
     d, ar = s["depth"], s["arity"]
     total = d * (d + 1) // 2
-    extra = {False: 0, None: 0, True: 2, "ab": 2, "gen": 2, "prov": 0, "val": 0, "mki": 0, "mut": 2, "bys": 0, "provrec": 0}[s.get("lt")]
+    extra = {False: 0, None: 0, True: 2, "ab": 2, "gen": 2, "prov": 0, "val": 0, "mki": 0, "mut": 2, "bys": 0, "provrec": 0, "abw": 2}[s.get("lt")]
     res = sum(i * i for i in range(1, d + 1)) + d * (sum(3 + i for i in range(ar)) + extra)
     return dict(allocs="%d|%d" % (total, total), res="%d|%d" % (res, res))
 
@@ -193,7 +200,7 @@ def evaluate(states, report, tier):
             if sig in done:
                 continue
             done.add(sig)
-            tags = {"mode:" + s["mode"], "async" if s["asy"] else "sync", "depth:%d" % s["depth"], "arity:%d" % s["arity"], {False: "elided", None: "elided", True: "named-lifetime", "ab": "outlives-bound", "gen": "generic-method", "prov": "provided-method", "val": "by-value-self", "mki": "mockall-impl-trait-return", "mut": "mut-ref-parameter", "bys": "delegate-by-self", "provrec": "provided-awaits-sibling"}[s.get("lt")]}
+            tags = {"mode:" + s["mode"], "async" if s["asy"] else "sync", "depth:%d" % s["depth"], "arity:%d" % s["arity"], {False: "elided", None: "elided", True: "named-lifetime", "ab": "outlives-bound", "gen": "generic-method", "prov": "provided-method", "val": "by-value-self", "mki": "mockall-impl-trait-return", "mut": "mut-ref-parameter", "bys": "delegate-by-self", "provrec": "provided-awaits-sibling", "abw": "outlives-where-clause"}[s.get("lt")]}
             report.violation(s["key"], tags, sig, detail, state=s, source=engine.standalone_source(u), meta=dict(mode="run"))
 
 
